@@ -71,13 +71,13 @@ func WorkerMain(t *testing.T) {
 	}
 	out := &WorkerOut{Profile: *flagProfile, Faults: map[string]int{}, Probes: map[string]int{}, Shapes: map[string]int{}, Notes: map[string]int{}}
 	wstart := time.Now()
-	hangHandler = func(prog *Program, tapeSeed int64, sig, text string, library bool) {
+	hangHandler = func(prog *Program, tapeSeed, tapeFork int64, sig, text string, library bool) {
 		// the run never ended: report what there is and leave
 		hres := &Result{Seed: prog.Seed, Prog: prog, Shape: "hang"}
 		hres.Stats.Faults, hres.Stats.Probes = map[string]int{}, map[string]int{}
 		if library {
 			hres.Viols = []Violation{{Prop: "C05", Sig: sig, Text: text, RPC: -1}}
-			hres.TapeSeed = tapeSeed
+			hres.TapeSeed, hres.TapeFork = tapeSeed, tapeFork
 			out.Failures = append(out.Failures, hres)
 		} else {
 			out.Fatal = append(out.Fatal, fmt.Sprintf("seed %d: run wedged without a library goroutine to blame (harness trouble):\n%s", prog.Seed, text))
@@ -252,7 +252,7 @@ func armWatchdog(prog *Program, tape *Tape) func() {
 	t := time.AfterFunc(hangTimeout, func() {
 		sig, text, lib := hangVerdict()
 		if hangHandler != nil {
-			hangHandler(prog, tape.Seed, sig, text, lib)
+			hangHandler(prog, tape.Seed, tape.ForkSeed, sig, text, lib)
 		} else {
 			fmt.Printf("run wedged: %s\n%s\n", sig, text)
 		}
@@ -262,7 +262,7 @@ func armWatchdog(prog *Program, tape *Tape) func() {
 }
 
 // hangHandler is told about a run that never ended; the process exits afterwards.
-var hangHandler func(prog *Program, tapeSeed int64, sig, text string, library bool)
+var hangHandler func(prog *Program, tapeSeed, tapeFork int64, sig, text string, library bool)
 
 // specialWorkers are profiles that are not "generate a program, run it":
 // complete enumerations and the like. They fill the WorkerOut themselves.
@@ -277,6 +277,7 @@ type ReplayFile struct {
 	Program   *Program   `json:"program"`
 	Tape      []int      `json:"tape"`
 	TapeSeed  int64      `json:"tape_seed,omitempty"` // if set (and tape empty): the schedule is the seeded search tape itself (used when a run never finished)
+	TapeFork  int64      `json:"tape_fork,omitempty"` // with tape_seed: the seed the choices were re-seeded with when the first planned fault fired
 	Trace     []string   `json:"trace,omitempty"`
 	History   []string   `json:"history,omitempty"`
 	TreeHash  string     `json:"tree_hash,omitempty"`
@@ -344,8 +345,9 @@ func replayMain(t *testing.T) {
 	tape := NewReplayTape(rf.Tape)
 	if rf.TapeSeed != 0 && len(rf.Tape) == 0 {
 		tape = NewSearchTape(rf.TapeSeed)
+		tape.ForkSeed = rf.TapeFork
 	}
-	hangHandler = func(_ *Program, _ int64, sig, text string, library bool) {
+	hangHandler = func(_ *Program, _, _ int64, sig, text string, library bool) {
 		fmt.Printf("VIOL C05 %s\n     %s\n", sig, text)
 		if library && sig == rf.Signature {
 			fmt.Printf("REPRODUCED property=%s signature=%s\n", rf.Property, rf.Signature)
